@@ -72,7 +72,23 @@ func (e *Engine) positionChecks(s *Sys, q *ecs.Query, oq *OpenQ) *Violation {
 	if foreign || set != me.Cs {
 		return e.v(s, "query-pos", "Query.Mask for %v reports %v, model %v", h, listOf(set), listOf(me.Cs))
 	}
-	iset, dup, f2 := s.idsToSet(q.Ids())
+	qids := q.Ids()
+	if len(qids) > 1 && (e.step+int(h.ID()))%3 == 1 {
+		first := append([]ecs.ID{}, qids...)
+		for i := range qids {
+			qids[i] = qids[len(qids)-1]
+		}
+		again := q.Ids()
+		same := len(again) == len(first)
+		for i := 0; same && i < len(first); i++ {
+			same = again[i] == first[i]
+		}
+		if !same {
+			return e.v(s, "query-pos", "Query.Ids for %v reports other IDs after the slice it returned before was written to (it is documented as a copy)", h)
+		}
+		qids = first
+	}
+	iset, dup, f2 := s.idsToSet(qids)
 	if dup || f2 || iset != me.Cs {
 		return e.v(s, "query-pos", "Query.Ids for %v reports %v, model %v", h, listOf(iset), listOf(me.Cs))
 	}
